@@ -294,7 +294,9 @@ Fixpoint ssize (s : sst) : nat :=
 with slsize (q : slst) : nat :=
   match q with
   | TChunk _ chunk p => S (length chunk + 2 * ssize p)
-  | TRuns _ _ _ _ p => S (S (b2n (pk_has p) + 2 * ssize (pk_in p)))
+  | TRuns r _ cur _ p =>
+      S (S (runs_w r (option_map (fun prev => (prev, true)) cur) (pk_has p) (pk_curr p)
+            + 3 * ssize (pk_in p)))
   end.
 
 (* Close: the Close calls that reach the instrumented sources, in order *)
